@@ -1,4 +1,4 @@
-"""R-CUSTOM-LOSSLESS (C01, C06): the release of a custom action is never lost on its way out of the layout.
+"""R-CUSTOM-LOSSLESS (C01, C06): no custom event - release or press - is lost on its way out of the layout.
 
 Mouse buttons, scrolling, mouse movement, unmod / unshift keys and on-release virtual-key actions are *custom*
 actions: the layout only tells kanata "custom action X was pressed / released" through the single `CustomEvent`
@@ -12,7 +12,10 @@ Clauses (all structural, on the MIR of keyberon's layout.rs):
  a. *release-capable* functions are computed as a least fixpoint: a function that builds `CustomEvent::Release`,
     or that calls a release-capable function (getting a CustomEvent back, or handing it a `&mut CustomEvent`).
     The CustomEvent returned by a release-capable callee is never discarded (the destination local is read).
-    Results of callees that can only report presses (do_action) may be discarded - a lost press is owed no release.
+    The result of a press-only callee (do_action) is not discarded either - an earlier version of this rule allowed
+    that ("a lost press is owed no release"), an audit showed it wrong: for actions that act on the press (releasing or
+    toggling a virtual key, ending caps-word) the lost press leaves a key down for ever. The reviewed exceptions are
+    calls whose action provably is no custom action (DISCARD_OK, each with a machine-checked fact).
  b. `CustomEvent::update` silently keeps the first of two releases. It is called with a value that may be a release
     only from the reviewed callers below, each with the structural fact that makes the call safe.
  c. the states of a coordinate are removed by `State::release` only from `Layout::release_coord` (the dequeued
@@ -31,10 +34,19 @@ CE = KB + "CustomEvent"
 UPDATE_OK = {
     KB + "State::release": ("release_coord leaves at most one custom state of the coordinate for the retain that calls this; "
                             "the others were turned into postponed releases", "only-from-release_coord"),
-    KB + "Layout::update_or_postpone_release": ("the arm that calls update is not taken when both are releases; that arm "
-                                                 "pushes a postponed release", "pushes-postponed"),
     KB + "Layout::process_sequence_custom": ("returns early unless the tick has no custom event yet", "guarded-by-noevent"),
 }
+
+
+# (function, callee) -> (fact, how it is checked) for discarded results of press-only callees
+DISCARD_OK = {
+    (KB + "Layout::waiting_into_tap", "do_action"): (
+        "the chord action that is repeated on the other coordinates is a KeyCode / MultipleKeyCodes / OneShot / Layer action (and a "
+        "one-shot's inner action is a key or layer action): none of them reports a custom event", "action-variants"),
+    (KB + "Layout::do_action", "do_action"): (
+        "the Src arm runs an entry of src_keys, which hold KeyCode / NoOp only (R-SRC-KEYS)", "src-arm"),
+}
+NO_CUSTOM_VARIANTS = {"KeyCode", "MultipleKeyCodes", "OneShot", "Layer", "NoOp", "DefaultLayer"}
 
 
 def _is_ce(ty):
@@ -120,17 +132,43 @@ def run(prog):
             cnt[short] = i + 1
             key = "result/%s/%s%s" % (n.split("layout::")[-1], short, "#%d" % i if i else "")
             may_release = cn in capable
-            ok = d["l"] in used or d["l"] == 0 or not may_release
+            read = d["l"] in used or d["l"] == 0
+            ok = read
+            reviewed = None
+            if not read and not may_release:
+                ent = DISCARD_OK.get((parent(n), short))
+                if ent is not None:
+                    reviewed = ent[0]
+                    if ent[1] == "action-variants":
+                        # the call lies under a match / matches! on the Action that only lets key and layer actions through
+                        ok = False
+                        from kq.analysis import reach_under_variant
+                        doms = [sw for sw in discr_switches(prog, f) if (sw.adt or "").endswith("action::Action") and f.dominates(sw.bb, bi)]
+                        # the nearest one: the switch that all the other dominating switches dominate
+                        near = [sw for sw in doms if all(f.dominates(o.bb, sw.bb) for o in doms)]
+                        if near:
+                            sw = near[0]
+                            through = {v for v in sw.all_variants if bi in reach_under_variant(prog, f, sw.adt, v, start=sw.bb)}
+                            ok = bool(through) and through <= NO_CUSTOM_VARIANTS
+                    elif ent[1] == "src-arm":
+                        ok = False
+                        for sw in discr_switches(prog, f):
+                            if (sw.adt or "").endswith("action::Action") and sw.target("Src") is not None and bi in sw.arm_region("Src"):
+                                ok = True
             res.fn(f)
-            res.inst(key, where="%s:%s" % (f.file, t.get("ln")), callee_can_report_release=may_release, read=d["l"] in used or d["l"] == 0, ok=ok)
+            res.inst(key, where="%s:%s" % (f.file, t.get("ln")), callee_can_report_release=may_release, read=read, reviewed=reviewed, ok=ok)
             res.oblige(ok)
             n_sites += 1
             if not ok:
                 res.viol(key, "%s:%s" % (f.file, t.get("ln")),
-                         "the CustomEvent returned by %s is discarded in %s. %s can report the release of a custom action (mouse "
-                         "button, scrolling, unmod key ...): the state is gone but kanata never hears of the release, so the "
-                         "button stays down / the wheel keeps turning and kanata is never idle again"
-                         % (short, n.split("layout::")[-1], short))
+                         "the CustomEvent returned by %s is discarded in %s. %s"
+                         % (short, n.split("layout::")[-1],
+                            ("%s can report the release of a custom action (mouse button, scrolling, unmod key ...): the state is gone but "
+                             "kanata never hears of the release, so the button stays down / the wheel keeps turning and kanata is never "
+                             "idle again" % short) if may_release else
+                            ("%s reports the press of custom actions: for an action that acts on the press (on-press release-vkey / "
+                             "toggle-vkey, caps-word-toggle) the effect is lost - a virtual key that should have been released stays down"
+                             % short)))
 
     # ---- b. update() with a possibly-releasing value only from reviewed callers
     for n, f in sorted(fns.items()):
@@ -146,7 +184,26 @@ def run(prog):
                     src = norm_name(callee_name(d[3]) or "")
                 elif d is not None and d[2] == "assign" and d[3]["k"] == "agg":
                     src = "agg:" + str(d[3].get("v"))
-            harmless = (src is not None and not src.startswith("agg:") and src not in capable) or src == "agg:Press" or src == "agg:NoEvent"
+            # merging into an event that is certainly NoEvent loses nothing: the receiver is a local whose only definitions
+            # are `CustomEvent::NoEvent` and this is the only update on it
+            recv_fresh = False
+            a0 = t["args"][0] if t["args"] else None
+            if a0 is not None and is_place(a0) and not proj(a0):
+                d0 = f.single_def(a0["l"])
+                if d0 is not None and d0[2] == "assign" and d0[3]["k"] == "ref" and not proj(d0[3]["p"]):
+                    L = d0[3]["p"]["l"]
+                    defs = [x for x in f.defs().get(L, []) if x[2] != "partial"]
+                    only_noevent = bool(defs) and all(x[2] == "assign" and x[3]["k"] == "agg" and x[3].get("v") == "NoEvent" for x in defs)
+                    n_upd = 0
+                    for _b2, t2 in f.calls():
+                        if norm_name(callee_name(t2) or "") == upd and t2["args"] and is_place(t2["args"][0]):
+                            d2 = f.single_def(t2["args"][0]["l"])
+                            if d2 is not None and d2[2] == "assign" and d2[3]["k"] == "ref" and d2[3]["p"]["l"] == L:
+                                n_upd += 1
+                    from rules.r_loopvar import loops_of as _loops
+                    in_loop = any(bi in lp.body for lp in _loops(f))
+                    recv_fresh = only_noevent and n_upd == 1 and not in_loop
+            harmless = recv_fresh or src == "agg:NoEvent"
             key = "update/%s%s" % (n.split("layout::")[-1], "#%d" % cnt if cnt else "")
             cnt += 1
             pn = parent(n)
@@ -176,9 +233,10 @@ def run(prog):
             res.oblige(ok)
             if not ok:
                 res.viol(key, "%s:%s" % (f.file, t.get("ln")),
-                         "%s merges a custom event that may be a release (%s) with CustomEvent::update, which silently keeps only "
-                         "the first of two releases%s. When two custom actions are released in the same tick the second release is "
-                         "lost: the mouse button / scrolling / unmod key it ends stays on for ever. Use update_or_postpone_release"
+                         "%s merges a custom event (%s) with CustomEvent::update, which silently keeps only one of two events%s. "
+                         "When two custom actions are released (or pressed) in the same tick the other event is lost: the mouse button / "
+                         "scrolling / unmod key it ends stays on for ever, or the virtual key it should release stays down. Use "
+                         "update_or_postpone_release"
                          % (n.split("layout::")[-1], src or "not the result of a press-only function",
                             (": " + why) if why else "; this caller is not one of the reviewed ones"))
 
